@@ -46,10 +46,10 @@ def classify(c, r):
         return f"{op} {got['k']} on {t}: {msg[:120]}", None
     g = got["v"]
     if op == "rt":
-        same_valid = len(g) == len(want) and all(w == NULL or x == w for x, w in zip(g, want))
-        only_nulls = same_valid and any(w == NULL and x != NULL for x, w in zip(g, want)) and all(x != NULL for x in g)
-        if only_nulls and r.get("enc") == "Constant":
-            return f"decode(encode_optimal(a)) = {g[:8]} but a = {want[:8]} (NULLs became values)", "C37/constant-drops-validity"
+        # Constant chosen for an array that holds NULLs (so it is not one repeated value, or it is all NULL) and an
+        # all-valid array comes back: constant detection looks at the storage / the first element and forgets validity
+        if r.get("enc") == "Constant" and NULL in want and len(g) == len(want) and all(x != NULL for x in g):
+            return f"decode(encode_optimal(a)) = {g[:8]} but a = {want[:8]} (Constant chosen, NULLs became values)", "C37/constant-drops-validity"
         return f"decode(encode_optimal(a)) = {g[:10]} but a = {want[:10]} (encoding {r.get('enc')})", None
     if op == "filter":
         if NULL in want and g == [x for x in want if x != NULL]:
@@ -94,6 +94,9 @@ def judge_records(ctx, cases, recs):
         case = {"case": c, "t": r["t"], "op": r["op"]}
         if fid and ctx.is_known(fid):
             ctx.known(fid, {"case": {k: c[k] for k in c if k not in ("exp",)}, "type": r["t"], "op": r["op"], "why": why})
+            h = ctx.known_hits[fid]
+            if h["example"]["case"]["len"] < 3 <= c["len"] <= 9:      # keep a more telling example than the 0/1-element one
+                h["example"] = {"case": {k: c[k] for k in c if k not in ("exp",)}, "type": r["t"], "op": r["op"], "why": why}
         else:
             ctx.violation(case, f"[{r['t']}] {why}")
     return drift
@@ -169,7 +172,8 @@ def run(ctx):
         for k in ("bbase", "mask"):
             if k in s:
                 s[k] = s[k][:12]
-        s["exp"] = json.loads(json.dumps(s["exp"])[:200] + '"' if False else json.dumps("...")) if len(json.dumps(s["exp"])) > 300 else s["exp"]
+        if len(json.dumps(s["exp"])) > 300:
+            s["exp"] = "(long)"
         ctx.sample(s)
     for r in [x for x in recs if x.get("sample")][:3]:
         ctx.sample({"agreeing_evaluation": {k: r[k] for k in ("t", "op", "got", "arrow", "exp")}})
@@ -234,7 +238,9 @@ def selftest(ctx):
         ("count counting NULL slots", sm, {"i": 0, "t": "i64", "op": "count", "got": {"k": "ok", "v": [3]}, "arrow": {"k": "ok", "v": [2]}, "exp": [2]}),
         ("filter keeping an unselected element", fil, {"i": 0, "t": "i64", "op": "filter", "got": {"k": "ok", "v": [0, NULL, 1, 2]}, "arrow": {"k": "ok", "v": [0, NULL, 2]}, "exp": [0, NULL, 2]}),
         ("comparison wrong on valid elements", bn, {"i": 0, "t": "f64", "op": "lt", "got": {"k": "ok", "v": [1, 0, 0, 0, 1, 0, 0, 0, 0]}, "arrow": {"k": "ok", "v": bn["exp"]["lt"]}, "exp": bn["exp"]["lt"]}),
-        ("constant decode with a wrong VALUE", sm, {"i": 0, "t": "i64", "op": "rt", "enc": "Constant", "got": {"k": "ok", "v": [1, 1, 1]}, "arrow": {"k": "ok", "v": [1, NULL, 2]}, "exp": [1, NULL, 2]}),
+        ("constant decode with a wrong VALUE", {"f": "un", "fam": "selftest", "base": [1, 1, 1], "off": 0, "len": 3, "exp": {"view": [1, 1, 1], "sum": 3, "count": 3}},
+         {"i": 0, "t": "i64", "op": "rt", "enc": "Constant", "got": {"k": "ok", "v": [2, 2, 2]}, "arrow": {"k": "ok", "v": [1, 1, 1]}, "exp": [1, 1, 1]}),
+        ("constant decode of the wrong LENGTH", sm, {"i": 0, "t": "i64", "op": "rt", "enc": "Constant", "got": {"k": "ok", "v": [1, 1]}, "arrow": {"k": "ok", "v": [1, NULL, 2]}, "exp": [1, NULL, 2]}),
         ("panic in a supported kernel", sm, {"i": 0, "t": "i64", "op": "sum", "got": {"k": "panic", "msg": "index out of bounds"}, "arrow": {"k": "ok", "v": [3]}, "exp": [3]}),
     ]
     for why, case, rec in muts:
